@@ -4,7 +4,7 @@
 #include "EbDefinitions.h"
 #include "EbCabacContextModel.h"
 #include "EbBitstreamUnit.h"
-typedef struct { AomWriter w; uint8_t *buf; size_t cap; } W;
+typedef struct { AomWriter w; uint8_t *buf; size_t cap; int done; } W;
 void *ecw_new(int allow_update, size_t cap) {
     W *x = calloc(1, sizeof *x); x->buf = malloc(cap); x->cap = cap;
     aom_start_encode(&x->w, x->buf); x->w.allow_update_cdf = (uint8_t)allow_update; return x;
@@ -15,6 +15,6 @@ void ecw_boolq15(void *p, int bit, unsigned f) { svt_od_ec_encode_bool_q15(&((W 
 void ecw_literal(void *p, int v, int bits) { aom_write_literal(&((W *)p)->w, v, bits); }
 int  ecw_tell(void *p) { return svt_od_ec_enc_tell(&((W *)p)->w.ec); }
 /* returns number of bytes; *out points at them */
-int ecw_done(void *p, uint8_t **out) { W *x = p; aom_stop_encode(&x->w); *out = x->buf; return (int)x->w.pos; }
-void ecw_free(void *p) { W *x = p; svt_od_ec_enc_clear(&x->w.ec); free(x->buf); free(x); }
+int ecw_done(void *p, uint8_t **out) { W *x = p; aom_stop_encode(&x->w); x->done = 1; /* stop_encode already clears the coder */ *out = x->buf; return (int)x->w.pos; }
+void ecw_free(void *p) { W *x = p; if (!x->done) svt_od_ec_enc_clear(&x->w.ec); free(x->buf); free(x); }
 void ecw_update_cdf(uint16_t *cdf, int val, int n) { update_cdf(cdf, val, n); }
